@@ -421,10 +421,8 @@ def stepformat(ctx, R):
             wantv += ["x%d" % k, "y%d" % k]
         specs = {s for x, s in h}
         R.check(t == want and vals == wantv and all(s.startswith("%.") and s.endswith("f") for s in specs), "C09.STEPFORMAT", "renderer.%s" % name, where(f), "`%s` with all coordinates in order, fixed-point" % want, "renderer.%s writes `%s` with %s (%s): the TikZ reader splits on single spaces, dispatches on the first letter and reads the coordinates in order" % (name, t, vals, specs))
-    # the TeX reader dispatches on exactly these letters
-    f = P.func(TEX + ".add_links")
-    lets = sorted({c.args[0].value for c in calls_in(f.node) if isinstance(c.func, ast.Attribute) and c.func.attr == "startswith" and c.args and isinstance(c.args[0], ast.Constant)})
-    R.check(lets == ["C", "L", "M"], "C09.STEPFORMAT", TEX + ".add_links|dispatch", where(f), "dispatches on M, L, C", "the TikZ reader dispatches on %s, the path generator writes M, L, C" % lets)
+    # that the TeX reader dispatches on exactly these letters and reads the coordinates in order is decided by C09.LINK
+    # (point-for-point equality of the TikZ segments with the SVG path, with and without stubs: M, C and L all occur)
     # curve helpers end at the second point
     for name in ("hCurveBetween", "vCurveBetween"):
         f = P.func("renderer." + name)
@@ -444,4 +442,15 @@ def _hex(ctx, R):
 
 _hex.rule_id = "C20.HEX-AGREE"
 
-RULES = [main_axis, ticks, labels, dots, colours, link, stepformat, _hex]
+
+def _lz(mod, fn, rid):
+    def run(ctx, R):
+        import importlib
+        return getattr(importlib.import_module("sa.rules." + mod), fn)(ctx, R)
+
+    run.rule_id = rid
+    run.__name__ = fn
+    return run
+
+# both exporters draw the axis iff showTicks (C07.EXPORT-CALLS); TeX colour names must be unique per datum (C20.NUMERATION)
+RULES = [main_axis, ticks, labels, dots, colours, link, stepformat, _hex, _lz("c07", "export_calls", "C07.EXPORT-CALLS"), _lz("c20", "numeration", "C20.NUMERATION"), _lz("c11", "timeline_opts", "GEN.OPTS-MERGE")]
